@@ -24,7 +24,11 @@ _H = "seeded adaptive histories (profile(s) %s) over the real handlers in virtua
 SPECS.update({
     "C02": hist("TestC02", _H % ("content, independence", "at least one delivery was compared field by field with what was published")),
     "C03": hist("TestC03", _H % ("ack", "at least one acknowledgement took effect or a stale/duplicate/unknown id was sent")),
-    "C04": hist("TestC04", _H % ("lease, lease-default", "at least one redelivery (attempt >= 2) was observed and placed against its lease window")),
+    "C04": dict(level="exploration", assumptions=HIST_ASSUME[:3] + ["concurrent pullers are interleaved at transaction boundaries by random virtual delays (SQLite immediate transactions admit no finer interleaving); PostgreSQL SKIP LOCKED is not executed"],
+        min_relevant={"quick": 50, "thorough": 500},
+        rule=(_H % ("lease, lease-default", "at least one redelivery (attempt >= 2) was observed and placed against its lease window")) + "; plus a scheduled part: 2-4 concurrent pullers of one subscription over 3 rounds with random limits and random virtual delays at their transaction boundaries - no ack id twice within a lease, consecutive attempt numbers, union = min(sum of limits, due messages)",
+        parts=[dict(name="hist", binary="rigv", pkg="rigv", test="TestC04", shards={"quick": 16, "thorough": 16}),
+               dict(name="conc", binary="rigv", pkg="rigv", test="TestC04conc", race=True, shards={"quick": 8, "thorough": 16})]),
     "C05": hist("TestC05", _H % ("order, order-dl, order-seek-retention", "a keyed message was delivered on an ordered subscription after an earlier same-key message had been settled")),
     "C06": hist("TestC06", _H % ("deadletter", "at least one delivery reached its max_delivery_attempts and had to be forwarded")),
     "C13": hist("TestC13", _H % ("seek", "a seek acknowledged or revived at least one delivery")),
